@@ -82,7 +82,9 @@ fn z_curve_partition<const D: usize>(
     let threshold_idx = (points_per_partition + 1) * remainder;
     permutation[..threshold_idx]
         .par_chunks(points_per_partition + 1)
-        .chain(permutation[threshold_idx..].par_chunks(points_per_partition))
+        // When there are more parts than points, `points_per_partition` is
+        // zero and this tail is empty; `par_chunks` still rejects a zero size.
+        .chain(permutation[threshold_idx..].par_chunks(points_per_partition.max(1)))
         .enumerate()
         .for_each(|(id, chunk)| {
             let ptr = atomic_handle.load(atomic::Ordering::Relaxed);
